@@ -299,11 +299,11 @@ pub fn run(tier: Tier) -> i32 {
     for second in [vec![R_AHEAD, Call::Get], vec![Call::Get, R_AHEAD, Call::Get]] {
         for mode in [Wall::Stall, Wall::Tick4ms] {
             scenarios += 1;
-            explore_scenario(&[vec![Call::Flood(1000)], second.clone()], mode, Some(tier.pick(2, 3)), &mut total, &mut summary);
+            explore_scenario(&[vec![Call::Flood(1000)], second.clone()], mode, Some(tier.pick(2, 4)), &mut total, &mut summary);
         }
     }
     // k = 3: deviation bound
-    let k3_bound = tier.pick(2, 3);
+    let k3_bound = tier.pick(2, 6);
     let trio: Vec<[usize; 3]> = if tier.is_thorough() {
         vec![[0, 1, 3], [1, 2, 3], [0, 4, 5], [1, 1, 0], [3, 3, 2]]
     } else {
